@@ -6,16 +6,17 @@ CONSTANTS
   Invs = {"i1"}
   Conns = {"c1", "c2"}
   OmitChoices = {0, 2}
-  InitStamps = {0, 1}
+  InitStamps = {1}
   NoDefault = {"p1"}
   InitScopeSets = {{}, {"all"}}
-  ActScopes = {"all", "p1"}
-  MaxNow = 4
-  Depth = 8
+  ActScopes = {"p1"}
+  MaxNow = 3
+  Depth = 7
   FullParams = {"p1"}
   LiteParams = {"p2"}
   GenConns = {"c2"}
-  GenDefaults = {"a"}
+  GenDefaults = {"b"}
+  GenLiteOmit = {2}
 CONSTRAINT Bound
 ACTION_CONSTRAINT EmitStep
 VIEW AbstractView
